@@ -40,7 +40,7 @@ def cross(a, b): return [a[1] * b[2] - a[2] * b[1], a[2] * b[0] - a[0] * b[2], a
 
 def native_vals(model, V, G):
     vals = {"%s%d" % (c, i): float(model_value(model, v)) for (i, c), v in V.items()}
-    vals['G'] = float(model_value(model, G)); return vals
+    vals['G'] = (float(model_value(model, G) or 1.0) or 1.0) if G is not None else 1.0; return vals
 
 def run_kick(u):
     rep = Report(); dom = Real(); ctx = PathCtx()
@@ -110,16 +110,20 @@ def run_leapfrog(u):
     X1 = [[dom.z(sim.particle(i).get(c)) for c in ('x', 'y', 'z')] for i in range(N)]; U1 = [[dom.z(sim.particle(i).get(c)) for c in ('vx', 'vy', 'vz')] for i in range(N)]
     ob = Obligations(rep, Prover(t_inproc_ms=20000, use_external=u.get('ext', False), t_ext_s=60), label)
     assum = [m >= 0 for m in M] + [G > 0] + [b != 0 for b in dom.divs]
+    def on_sat(model):
+        vals = native_vals(model, V, G); vals['dt'] = float(model_value(model, dt) or 0.0) or 0.01
+        ok, detail = native_unit(u, vals)
+        return ok, 'C04:leapfrog', detail, dict(kind='unit', unit=u, vals=vals)
     for k in range(3):
         p0 = sum((M[i] * U0[i][k] for i in range(N)), z3.RealVal(0)); p1 = sum((M[i] * U1[i][k] for i in range(N)), z3.RealVal(0))
-        ob.prove("linear momentum %s conserved by one step" % 'xyz'[k], p1 == p0, assum, axioms=dom.axioms, domain='REAL')
+        ob.prove("linear momentum %s conserved by one step" % 'xyz'[k], p1 == p0, assum, axioms=dom.axioms, on_sat=on_sat, domain='REAL')
         c0 = sum((M[i] * X0[i][k] for i in range(N)), z3.RealVal(0)); c1 = sum((M[i] * X1[i][k] for i in range(N)), z3.RealVal(0))
-        ob.prove("centre of mass %s moves uniformly: M X(t+dt) == M X(t) + P dt" % 'xyz'[k], c1 == c0 + p0 * dt, assum, axioms=dom.axioms, domain='REAL')
+        ob.prove("centre of mass %s moves uniformly: M X(t+dt) == M X(t) + P dt" % 'xyz'[k], c1 == c0 + p0 * dt, assum, axioms=dom.axioms, on_sat=on_sat, domain='REAL')
     l0 = [sum((M[i] * cross(X0[i], U0[i])[k] for i in range(N)), z3.RealVal(0)) for k in range(3)]
     l1 = [sum((M[i] * cross(X1[i], U1[i])[k] for i in range(N)), z3.RealVal(0)) for k in range(3)]
     for k in range(3):
-        ob.prove("angular momentum %s conserved by one step" % 'xyz'[k], l1[k] == l0[k], assum, axioms=dom.axioms, domain='REAL')
-    ob.prove("t advanced by dt", dom.z(sim.get('t')) == dt, assum, domain='REAL')
+        ob.prove("angular momentum %s conserved by one step" % 'xyz'[k], l1[k] == l0[k], assum, axioms=dom.axioms, on_sat=on_sat, domain='REAL')
+    ob.prove("t advanced by dt", dom.z(sim.get('t')) == dt, assum, on_sat=on_sat, domain='REAL')
     rep.paths += 1; rep.add_interp(I)
     ob.witness("inputs", assum, axioms=dom.axioms)
     return rep
@@ -143,11 +147,15 @@ def run_diag(u):
             want = want - dom.fdiv(G * M[i] * M[j], dom.libm('sqrt', [d[0] * d[0] + d[1] * d[1] + d[2] * d[2]]))
     ob = Obligations(rep, Prover(t_inproc_ms=15000, use_external=False), label)
     assum = [b != 0 for b in dom.divs]
-    ob.prove("reb_simulation_energy == kinetic + pair potential (+ offset)", E == want, assum, axioms=dom.axioms, domain='REAL')
+    def on_sat(model):
+        vals = native_vals(model, V, G); vals['energy_offset'] = float(model_value(model, eoff) or 0.0)
+        ok, detail = native_unit(u, vals)
+        return ok, 'C04:diagnostics', detail, dict(kind='unit', unit=u, vals=vals)
+    ob.prove("reb_simulation_energy == kinetic + pair potential (+ offset)", E == want, assum, axioms=dom.axioms, on_sat=on_sat, domain='REAL')
     o = I.mem.alloc(24, 'L', 'harness', zero=True); I.call('@reb_simulation_angular_momentum', [o, sim.ptr])
     for k in range(3):
         got = dom.z(I.mem.load(Ptr(o.obj, 8 * k), F64))
-        ob.prove("angular_momentum.%s == sum m (x cross v)" % 'xyz'[k], got == sum((M[i] * cross(X[i], U[i])[k] for i in range(N)), z3.RealVal(0)), assum, domain='REAL')
+        ob.prove("angular_momentum.%s == sum m (x cross v)" % 'xyz'[k], got == sum((M[i] * cross(X[i], U[i])[k] for i in range(N)), z3.RealVal(0)), assum, on_sat=on_sat, domain='REAL')
     psz = L.structs['reb_particle']['size']
     c = I.mem.alloc(psz, 'com', 'harness', zero=True)
     def run_com(ctx2):
@@ -165,9 +173,13 @@ def run_diag(u):
         ob2 = Obligations(rep, ob.prover, label + "com path%d " % rep.paths)
         M2 = [V2[(i, 'm')] for i in range(N)]; mt = sum(M2, z3.RealVal(0))
         a2 = list(ctx2.pc) + [b != 0 for b in dom2.divs]
-        ob2.prove("com.m == total mass", dom2.z(cv.get('m')) == mt, a2, axioms=dom2.axioms, domain='REAL')
+        def on_sat2(model, V2=V2):
+            vals = native_vals(model, V2, None)
+            ok, detail = native_unit(u, vals)
+            return ok, 'C04:diagnostics', detail, dict(kind='unit', unit=u, vals=vals)
+        ob2.prove("com.m == total mass", dom2.z(cv.get('m')) == mt, a2, axioms=dom2.axioms, on_sat=on_sat2, domain='REAL')
         for cc in ('x', 'y', 'z', 'vx', 'vy', 'vz'):
-            ob2.prove("com.%s * M == sum m %s" % (cc, cc), dom2.z(cv.get(cc)) * mt == sum((M2[i] * V2[(i, cc)] for i in range(N)), z3.RealVal(0)), a2, axioms=dom2.axioms, domain='REAL')
+            ob2.prove("com.%s * M == sum m %s" % (cc, cc), dom2.z(cv.get(cc)) * mt == sum((M2[i] * V2[(i, cc)] for i in range(N)), z3.RealVal(0)), a2, axioms=dom2.axioms, on_sat=on_sat2, domain='REAL')
         ob2.witness("path", a2, axioms=dom2.axioms)
     rep.paths += 1; rep.add_interp(I)
     return rep
@@ -180,7 +192,7 @@ def run_merge(u):
         dom = Real(); I, sim, V, G = mk(dom, ctx, N)
         for i in range(N):
             r_ = dom.fresh('r%d' % i); V[(i, 'r')] = r_; sim.particle(i).set('r', r_); sim.particle(i).set('last_collision', dom.const(-1.0))
-            ctx.assume(V[(i, 'm')] > 0)
+            ctx.assume(V[(i, 'm')] > 0); ctx.assume(r_ > 0)          # masses and radii are positive (documented)
         sim.set('track_energy_offset', tre); sim.set('t', dom.const(1.0))
         col = I.mem.alloc(L.structs['reb_collision']['size'], 'collision', 'harness', zero=True)
         cv = SimView(I, col, 'reb_collision'); cv.set('p1', u['pair'][0]); cv.set('p2', u['pair'][1])
@@ -194,16 +206,21 @@ def run_merge(u):
         ob = Obligations(rep, prover, label + "path%d " % rep.paths)
         i, j = sorted(u['pair'])
         assum = list(ctx.pc) + [b != 0 for b in dom.divs]
-        ob.prove("the particle with the larger index is flagged for removal", ret == (1 if u['pair'][1] < u['pair'][0] else 2), assum, domain='REAL')
+        def on_sat(model, V=V, G=G):
+            vals = native_vals(model, V, G)
+            for i_ in range(N): vals['r%d' % i_] = float(model_value(model, V[(i_, 'r')]) or 0.1)
+            ok, detail = native_unit(u, vals)
+            return ok, 'C04:merge', detail, dict(kind='unit', unit=u, vals=vals)
+        ob.prove("the particle with the larger index is flagged for removal", ret == (1 if u['pair'][1] < u['pair'][0] else 2), assum, on_sat=on_sat, domain='REAL')
         mi = dom.z(sim.particle(i).get('m'))
-        ob.prove("merged mass == m_i + m_j", mi == V[(i, 'm')] + V[(j, 'm')], assum, axioms=dom.axioms, domain='REAL')
+        ob.prove("merged mass == m_i + m_j", mi == V[(i, 'm')] + V[(j, 'm')], assum, axioms=dom.axioms, on_sat=on_sat, domain='REAL')
         for cc in ('x', 'y', 'z', 'vx', 'vy', 'vz'):
-            ob.prove("merged %s: momentum / centre of mass conserved" % cc, dom.z(sim.particle(i).get(cc)) * (V[(i, 'm')] + V[(j, 'm')]) == V[(i, 'm')] * V[(i, cc)] + V[(j, 'm')] * V[(j, cc)], assum, axioms=dom.axioms, domain='REAL')
+            ob.prove("merged %s: momentum / centre of mass conserved" % cc, dom.z(sim.particle(i).get(cc)) * (V[(i, 'm')] + V[(j, 'm')]) == V[(i, 'm')] * V[(i, cc)] + V[(j, 'm')] * V[(j, cc)], assum, axioms=dom.axioms, on_sat=on_sat, domain='REAL')
         rr = dom.z(sim.particle(i).get('r'))
-        ob.prove("merged radius: volume additive (r^3 == r_i^3 + r_j^3)", rr * rr * rr == V[(i, 'r')] ** 3 + V[(j, 'r')] ** 3, assum, axioms=dom.axioms, domain='REAL')
+        ob.prove("merged radius: volume additive (r^3 == r_i^3 + r_j^3)", rr * rr * rr == V[(i, 'r')] ** 3 + V[(j, 'r')] ** 3, assum, axioms=dom.axioms, on_sat=on_sat, domain='REAL')
         k = 3 - i - j
         for cc in COMP:
-            ob.prove("the uninvolved particle is untouched (%s)" % cc, dom.z(sim.particle(k).get(cc)) == V[(k, cc)], assum, domain='REAL')
+            ob.prove("the uninvolved particle is untouched (%s)" % cc, dom.z(sim.particle(k).get(cc)) == V[(k, cc)], assum, on_sat=on_sat, domain='REAL')
         ob.witness("path", assum, axioms=dom.axioms)
     return rep
 
@@ -269,6 +286,89 @@ def native_jerk(u, vals):
             tscale = sum(abs(vals['m%d' % i] * c_) for i in range(N) for c_ in cross(X[i], dv[i])) + 1e-300
             bad = bad or max(abs(t) for t in T_) > 1e-8 * tscale
         return bad, "native jerk kick: sum m dv = %r (scale %.3g)" % (P_, scale)
+    finally:
+        ns.free()
+
+def native_unit(u, vals):
+    """native replay of a leapfrog / diagnostics / merge unit at the model's values"""
+    import math
+    N_ = nat(); L = N_.L; N = u.get('N', 3); what = u['what']
+    ns = N_.create()
+    try:
+        for i in range(N): ns.add(m=1.0)
+        for i in range(N):
+            for c in COMP: ns.particle(i).set(c, vals.get('%s%d' % (c, i), 0.0))
+        ns.set('G', vals.get('G', 1.0))
+        P = lambda: [[ns.particle(i).get(c) for c in COMP] for i in range(N)]
+        def mom(p): return [sum(q[6] * q[3 + k] for q in p) for k in range(3)]
+        def com(p): return [sum(q[6] * q[k] for q in p) for k in range(3)]
+        def ang(p): return [sum(q[6] * cross(q[0:3], q[3:6])[k] for q in p) for k in range(3)]
+        sc = lambda *v: max([abs(x) for x in v] + [1e-300])
+        if what == 'leapfrog':
+            dt = vals.get('dt', 0.01); ns.set('integrator', L.enumerators['REB_INTEGRATOR_LEAPFROG']); ns.set('dt', dt)
+            p0 = P(); ns.call('reb_simulation_step'); p1 = P()
+            bad = []
+            m0, m1 = mom(p0), mom(p1); c0, c1 = com(p0), com(p1); a0, a1 = ang(p0), ang(p1)
+            S = sc(*(abs(q[6] * q[3 + k]) for q in p0 for k in range(3)))
+            for k in range(3):
+                if abs(m1[k] - m0[k]) > 1e-9 * S: bad.append(('momentum', k, m0[k], m1[k]))
+                if abs(c1[k] - c0[k] - m0[k] * dt) > 1e-9 * sc(S * dt, *(abs(q[6] * q[k]) for q in p0)): bad.append(('centre of mass', k))
+                if abs(a1[k] - a0[k]) > 1e-8 * sc(*(abs(q[6] * c_) for q in p0 for c_ in cross(q[0:3], q[3:6]))): bad.append(('angular momentum', k, a0[k], a1[k]))
+            return bool(bad), "native LEAPFROG step at the model's values: %s" % (("not conserved: %r" % bad[:3]) if bad else "momentum, centre of mass and angular momentum conserved")
+        if what == 'diag':
+            na, tpt = u['na'], u['tpt']
+            ns.set('N_active', na if na != N else -1); ns.set('testparticle_type', tpt); ns.set('energy_offset', vals.get('energy_offset', 0.0))
+            p = P(); G = vals.get('G', 1.0)
+            f = N_.lib.reb_simulation_energy; f.restype = ctypes.c_double; f.argtypes = [ctypes.c_void_p]
+            E = f(ns.addr)
+            nint = na if tpt == 0 else N
+            want = vals.get('energy_offset', 0.0) + sum(0.5 * p[i][6] * sum(c * c for c in p[i][3:6]) for i in range(nint))
+            terms = [abs(want)]
+            for i in range(na):
+                for j in range(i + 1, nint):
+                    d = math.dist(p[i][0:3], p[j][0:3])
+                    if d == 0: return False, "degenerate model (coincident particles)"
+                    want -= G * p[i][6] * p[j][6] / d; terms.append(abs(G * p[i][6] * p[j][6] / d))
+            bad = []
+            if abs(E - want) > 1e-9 * sc(*terms): bad.append(('energy', E, want))
+            class V3(ctypes.Structure): _fields_ = [('x', ctypes.c_double), ('y', ctypes.c_double), ('z', ctypes.c_double)]
+            g = N_.lib.reb_simulation_angular_momentum; g.restype = V3; g.argtypes = [ctypes.c_void_p]
+            Lv = g(ns.addr); a = ang(p)
+            for k, got in enumerate((Lv.x, Lv.y, Lv.z)):
+                if abs(got - a[k]) > 1e-9 * sc(*(abs(q[6] * c_) for q in p for c_ in cross(q[0:3], q[3:6]))): bad.append(('angular momentum', k, got, a[k]))
+            psz = N_.psize
+            class Pt(ctypes.Structure): _fields_ = [('b', ctypes.c_ubyte * psz)]
+            h = N_.lib.reb_simulation_com; h.restype = Pt; h.argtypes = [ctypes.c_void_p]
+            cp = h(ns.addr); cv = NView(N_, ctypes.addressof(cp), 'reb_particle')
+            mt = sum(q[6] for q in p)
+            if mt > 0:
+                if abs(cv.get('m') - mt) > 1e-9 * mt: bad.append(('com.m', cv.get('m'), mt))
+                for k, c in enumerate(('x', 'y', 'z', 'vx', 'vy', 'vz')):
+                    w = sum(q[6] * q[k] for q in p) / mt
+                    if abs(cv.get(c) - w) > 1e-9 * sc(w, *(abs(q[k]) for q in p)): bad.append(('com.' + c, cv.get(c), w))
+            return bool(bad), "native diagnostics at the model's values: %s" % (("differ from the textbook sums: %r" % bad[:3]) if bad else "agree with the textbook sums")
+        if what == 'merge':
+            for i in range(N): ns.particle(i).set('r', vals.get('r%d' % i, 0.1)); ns.particle(i).set('last_collision', -1.0)
+            ns.set('track_energy_offset', u['track']); ns.set('t', 1.0)
+            p0 = P(); r0 = [ns.particle(i).get('r') for i in range(N)]
+            csz = L.structs['reb_collision']['size']
+            class Col(ctypes.Structure): _fields_ = [('b', ctypes.c_ubyte * csz)]
+            col = Col(); cv = NView(N_, ctypes.addressof(col), 'reb_collision'); cv.set('p1', u['pair'][0]); cv.set('p2', u['pair'][1])
+            f = N_.lib.reb_collision_resolve_merge; f.restype = ctypes.c_int; f.argtypes = [ctypes.c_void_p, Col]
+            ret = f(ns.addr, col)
+            p1 = P(); i, j = sorted(u['pair']); k = 3 - i - j
+            bad = []
+            if ret != (1 if u['pair'][1] < u['pair'][0] else 2): bad.append(('return', ret))
+            mt = p0[i][6] + p0[j][6]
+            if abs(p1[i][6] - mt) > 1e-12 * abs(mt): bad.append(('mass', p1[i][6], mt))
+            for c in range(6):
+                w = p0[i][6] * p0[i][c] + p0[j][6] * p0[j][c]
+                if abs(p1[i][c] * mt - w) > 1e-9 * sc(abs(p0[i][6] * p0[i][c]), abs(p0[j][6] * p0[j][c])): bad.append((COMP[c], p1[i][c] * mt, w))
+            rr = ns.particle(i).get('r')
+            if abs(rr ** 3 - r0[i] ** 3 - r0[j] ** 3) > 1e-9 * (abs(r0[i]) ** 3 + abs(r0[j]) ** 3): bad.append(('radius', rr))
+            if any(p1[k][c] != p0[k][c] for c in range(7)): bad.append(('bystander changed',))
+            return bool(bad), "native merge at the model's values: %s" % (("violates conservation: %r" % bad[:3]) if bad else "conserves mass, momentum, centre of mass and volume")
+        return False, "no native replay for unit kind %r" % what
     finally:
         ns.free()
 
@@ -355,6 +455,7 @@ def worker(u):
     return {'kick': run_kick, 'leapfrog': run_leapfrog, 'diag': run_diag, 'merge': run_merge, 'comframe': run_comframe, 'jerk': run_jerk}[u['what']](u)
 
 def replay(data):
+    if data.get('kind') == 'unit': return native_unit(data['unit'], data['vals'])
     if data.get('kind') == 'comframe': return native_comframe(data['integ'])
     if data.get('kind') == 'jerk': return native_jerk(data['unit'], data['vals'])
     return native_kick(data['unit'], data['vals'])
